@@ -36,6 +36,8 @@ class Interp(BaseMixin, ExprMixin, AttrMixin, CallMixin, BuiltinsMixin, StmtMixi
         self.lemmas_used = set()
         self.current_lemma = None
         self.uninterpreted = set()
+        self._auto_cache = {}
+        self.qpreds = QPREDS
         self.aux_funs: Dict[Any, Any] = _AUX
         self.spec_defs: Dict[str, Any] = _SPEC_DEFS
         self.depth = 0
@@ -95,6 +97,7 @@ class Interp(BaseMixin, ExprMixin, AttrMixin, CallMixin, BuiltinsMixin, StmtMixi
 
 _AUX: Dict[Any, Any] = {}
 _SPEC_DEFS: Dict[str, Any] = {}
+QPREDS: Dict[int, Any] = {}            # decl id of a quantified predicate (equiv) -> builder of its definition
 FUNCTION_MODELS: Dict[str, Any] = {}   # qualified name -> symbolic model of a spec-library helper
 
 
